@@ -65,6 +65,16 @@ def gen_ser(tier, R):
         for i in range(d):
             e = f"(un not {e})" if i % 2 else f"(bin and {e} (var {s('x')}))"
         out.append(e)
+    # sizes: array literals of n members holding the values a compact encoding would get wrong (-0, whole numbers beyond 2^53, 0.1, the largest double) at the first, a middle and the last place
+    from gen.trees import SIZES
+    for n in SIZES:
+        for special in (num(-0.0), num(2.0**53 + 2), num(0.1), num(1.7976931348623157e308), num(-1.0), s(""), b(False), arr(), arr(num(-0.0))):
+            for p_ in sorted({0, n // 2, n - 1}):
+                els = [num(float(i)) for i in range(n)]
+                els[p_] = special
+                out.append(f"(lit {arr(*els)})")
+                if n <= 66:
+                    out.append(f"(bin divide (lit {num(1.0)}) (call {s('at')} (lit {arr(*els)}) (lit {num(float(p_))})))")
     res = [f"(ser _ {e})" for e in out]
     # trees that compile and optimize produce: scripts -> compile -> (optimize against the stdlib) -> serialize
     for _ in range(1500 if tier == 'quick' else 100000):
@@ -159,6 +169,17 @@ def gen_env(tier, R):
             else:
                 ops.append(f"(remf {s(n)})")
         out.append(f"(env _ {wqs if i % 4 == 0 else '(qs ' + ' '.join(s(n) for n in WNAMES[:-5]) + ')'} (ops {' '.join(ops)}))")
+    # sizes: histories over n distinct names (an inline table with an overflow area, a bucket array that grows, a u8 slot counter): fill, remove from the front, re-add through another spelling, remove again
+    for n in (15, 16, 17, 18, 31, 32, 33, 34, 63, 64, 65, 66, 100, 129, 257):
+        names_n = [f"v{i}" if i % 2 else f"V{i}" for i in range(n)]
+        qn = "(qs " + " ".join(s(x) for x in [names_n[0].lower(), names_n[-1].upper(), names_n[n // 2], "nosuch"]) + ")"
+        fill = [f"(addv {s(x)} {num(float(i))})" for i, x in enumerate(names_n)]
+        fillf = [f"(addf {s(x)} {i % 3})" for i, x in enumerate(names_n)]
+        for ops in (fill + [f"(remv {s(names_n[0].swapcase())})", f"(addv {s(names_n[-1].swapcase())} {num(1000.0)})", f"(remv {s(names_n[-1])})", f"(addv {s(names_n[0])} {num(7.0)})"],
+                    fill + [f"(remv {s(names_n[n - 2])})", f"(remv {s(names_n[1])})", f"(addv {s(names_n[n // 2].swapcase())} (b 1))", "(clrv)", f"(addv {s(names_n[3])} {num(3.0)})"],
+                    fillf + [f"(remf {s(names_n[0].swapcase())})", f"(addf {s(names_n[-1].swapcase())} 2)", f"(remf {s(names_n[-1])})", f"(addf {s(names_n[n - 2])} 1)", f"(remf {s(names_n[n - 2].swapcase())})"],
+                    fill + fillf + [f"(remv {s(x)})" for x in names_n[:n // 2]] + [f"(addv {s(names_n[-1].swapcase())} {num(-1.0)})"] + [f"(remf {s(x.swapcase())})" for x in names_n[n // 2:]]):
+            out.append(f"(env _ {qn} (ops {' '.join(ops)}))")
     out += gen_respell(tier, R)
     # overwriting a function with the same native function but another arity / purity, under respelled names (oracle against a reference map)
     for i in range(300 if tier == 'quick' else 20000):
